@@ -245,6 +245,10 @@ parent's waker (when nothing is scheduled) *before* `take_scheduled(1)`, returns
 otherwise walks the iterator and repeats. -/
 theorem owner_loop_shape : Extracted.bcastRegistersBeforeTake = true := by decide
 
+/-- **source_side_owner_loop_shape** — the broadcast future of `EventSource` / `QuerySource`
+(`ports/source/broadcaster.rs`) runs the same loop over the same task set: register before `take_scheduled(1)`. -/
+theorem source_side_owner_loop_shape : Extracted.srcBcastRegistersBeforeTake = true := by decide
+
 /-- **parent_does_not_sleep_through_a_sub_task_wake_up** — M-TSET composed with that loop and the parent's
 `DiatomicWaker` (register / notify), waker threads running at any moment, also *during* a poll: whenever the owner has
 returned `Pending`, no waker thread is inside `wake_by_ref` and no notification has reached the parent's registered waker
